@@ -418,6 +418,35 @@ class Graph:
                                                                                'sro': [self.name_of(x) for x in n.spec.__sro__]})
                 self.after_mutation(idx, before, how)
                 return True
+        if not STRICT and rng.random() < 0.1 and n.kind in ('iface', 'decl'):
+            # one of the dependents reacts to the news by deriving something new from the very specification that is
+            # changing (a new dependent appears while the others are being told): everybody is told all the same
+            target = n.spec
+            bred = []
+
+            class Breeder:
+                armed = True
+
+                def changed(self_, originally_changed):
+                    if self_.armed:
+                        self_.armed = False
+                        bred.append(Declaration(target))
+                        if isinstance(target, InterfaceClass):
+                            bred.append(InterfaceClass(self.newname('IBred'), (target,), {}, __module__=self.module))
+            br = Breeder()
+            n.spec.subscribe(br)
+            try:
+                n.spec.__bases__ = nb
+            finally:
+                n.spec.unsubscribe(br)
+            self.ctx.count('assignments_during_which_a_new_dependent_appeared')
+            for b_ in bred:
+                self.ctx.ev()
+                rs_, _rl = util.reach(b_, util.spec_bases)
+                if {id(x) for x in b_.__sro__} != {id(b_)} | rs_ | {id(Interface)}:
+                    self.ctx.violation('dependent-born-during-a-notification-is-stale', {'of': n.name, 'sro': [self.name_of(x) for x in b_.__sro__]})
+            self.after_mutation(idx, before, how)
+            return True
         try:
             n.spec.__bases__ = nb
         except IRO as e:
